@@ -5,6 +5,7 @@ package lexer
 import (
 	"strings"
 
+	"github.com/xjslang/xjs/simhook"
 	"github.com/xjslang/xjs/token"
 )
 
@@ -428,6 +429,7 @@ func (l *Lexer) readRawString() (string, bool) {
 
 // NextToken generates and returns the next token from the input stream.
 func (l *Lexer) NextToken() token.Token {
+	simhook.Point(simhook.LexerNextToken)
 	l.readLeadingComments()
 	return l.nextToken(l)
 }
